@@ -250,6 +250,35 @@ def check(ctx):
     ctx.decide(" is " in src or "id(" in src, "R-EQ", f"{msg.qual}._lookup_avp_index", msg.where(li),
                "index lookup compares identities", "_lookup_avp_index compares by equality", key="lookup_identity")
 
+    # ---- clause 1a: append binds a FRESH name ----------------------------------------------------------------------
+    # the name under which append stores the AVP is not yet in the name map, on every path (decided on terms: the stored key
+    # carries a recorded `key in self.__dict__ == False`, from an if or from the exit of a while loop).  A name computed by
+    # counting existing names is not fresh after a middle duplicate was popped: it overwrites the binding of a listed AVP.
+    ctx.clause = "1a-append-fresh-name"
+    from .. import sym as _sf
+    for ci in (msg, grp):
+        ap_ = ctx.need(ci.methods.get("append"), f"{ci.name}.append")
+        pn_ = [a_.arg for a_ in ap_.args.args if a_.arg != "self"][0]
+        DICT_ = ("attr", ("name", "self"), "__dict__")
+        n_st, stale = 0, []
+        for p_ in _sf.Interp(fold=lambda e: repo.fold(ci.mod, e)).run(strip_doc(ap_.body), _sf.PathState({pn_: _sf.S(pn_)}, [], [])):
+            if p_.term == "raise":
+                continue
+            for e in p_.effects:
+                if e[0] == "setitem" and e[1] == DICT_:
+                    n_st += 1
+                    fresh = any(c == ("cmp", "In", e[2], DICT_) and tv is False for c, tv in p_.conds)
+                    if not fresh:
+                        stale.append(_sf.show(e[2])[:60])
+        if n_st == 0:
+            ctx.undecided("R-TABLE/fresh-name", f"{ci.qual}.append", ci.where(ap_), "no store into the name map found", key="fresh")
+            continue
+        ctx.decide(not stale, "R-TABLE/fresh-name", f"{ci.qual}.append", ci.where(ap_),
+                   "the name chosen for the appended AVP is checked to be unused on every path",
+                   f"append stores the AVP under {sorted(set(stale))} without having checked that this name is unused: after a duplicate in "
+                   f"the middle was popped the counted suffix collides with an existing name, whose AVP stays listed but loses its name "
+                   f"(named view and list disagree)", key="fresh")
+
     # ---- clause 1b: cleanup forgets every name append can have created -------------------------------------------
     # append names an AVP `<name>_avp` and repeats `<name>_avp__<n>` for an unbounded n; the key filter of cleanup is
     # evaluated (term interpreter, key = a concrete witness) on names of that shape: each must be selected, `_avps` must not
